@@ -5,7 +5,9 @@ inputs are additionally made exactly 0.  No clause compares with the harness' ow
   (a) one output sample per input timestamp, consecutive;
   (b) output(T) is None  <=>  a needed input is missing at T where it is not treated as zero, or a
       divisor atom is 0 (or missing-as-zero) at T  - evaluated hierarchically over engine boundaries;
-  (c) replacing every missing value on nones_are_zeros streams by an explicit 0.0 gives the same output.
+  (c) replacing every missing value on nones_are_zeros streams by an explicit 0.0 gives the same output;
+  (d) an emitted value is finite: inputs near the float limit make sums/products overflow, which must give
+      None ("the result is undefined or not finite"), never +-inf.
 """
 
 from __future__ import annotations
@@ -27,14 +29,15 @@ RULE = ("one run = a drawn expression over + - * / max min consumption productio
         "corrupted value delivered; distinct = abstract digest of (corruption kind, stream) sequence")
 QUICK_RUNS = 5000
 THOROUGH_RUNS = 300_000
-EXPECT_PROBES = ["missing_in_max_min_rhs", "missing_in_max_min_lhs", "division_by_zero", "missing_as_zero",
+EXPECT_PROBES = ["overflow_to_none", "missing_in_max_min_rhs", "missing_in_max_min_lhs", "division_by_zero", "missing_as_zero",
                  "sub_engine_none_as_zero"]
 
-CORRUPT = ["ok", "none", "nan", "+inf", "-inf", "zero"]
+CORRUPT = ["ok", "none", "nan", "+inf", "-inf", "zero", "huge+", "huge-"]
 
 
 def _corrupt_value(kind: str, v: float) -> float | None:
-    return {"ok": v, "none": None, "nan": math.nan, "+inf": math.inf, "-inf": -math.inf, "zero": 0.0}[kind]
+    return {"ok": v, "none": None, "nan": math.nan, "+inf": math.inf, "-inf": -math.inf, "zero": 0.0,
+            "huge+": 1.5e308, "huge-": -1.5e308}[kind]
 
 
 class Expect:
@@ -146,11 +149,14 @@ def scenario(sim: Sim) -> None:
     rounds = ch.int_between("rounds", 4, sim.scale(25, 60))
     divisors = _divisor_leaves(tree)
     rate = ch.choice("corrupt_rate", [3, 1, 6])
+    huge = ch.choice("huge_rate", [0, 0, 2, 6])
     kinds: list[list[str]] = []
     for i in range(n):
         row = []
         for k in range(rounds):
-            w = [20, rate, rate // 2 + 1, 1, 1, (rate if i in divisors else 0)]
+            # "huge" = finite values near the float limit: sums/products of them overflow, so the *result* is not
+            # finite although every input is (-> None expected, whatever the expression computes otherwise)
+            w = [20, rate, rate // 2 + 1, 1, 1, (rate if i in divisors else 0), huge, huge]
             c = CORRUPT[ch.weighted("corrupt", w)]
             if c != "ok":
                 sim.fault("input_" + c)
@@ -193,9 +199,20 @@ def scenario(sim: Sim) -> None:
                                f"no sample for timestamps {missing_ts[:8]}, duplicated {extra[:8]}; emitted {got_ts[:12]}..")
         # ---- (b) None iff
         byts = dict(got)
+        # ---- (d) an emitted value is always finite (overflow of finite inputs is "not finite" -> None)
+        for k, v in got:
+            if v is not None and (math.isinf(v) or math.isnan(v)):
+                sim.probe("non_finite_result")
+                sim.soft_violation("finite_or_none", sigbase,
+                                   f"T={k}: the formula emitted the non-finite value {v} (inputs "
+                                   f"{[(i, kinds[i][k]) for i in range(n) if kinds[i][k] != 'ok']}); expected None")
         for k in range(rounds):
             if k not in byts:
                 continue
+            if any(kinds[i][k].startswith("huge") for i in range(n)):
+                if byts[k] is None:
+                    sim.probe("overflow_to_none")
+                continue   # whether the result overflows cannot be decided without evaluating the expression (R4)
             m, reasons = expects[k]
             is_none = byts[k] is None
             if m and not is_none:
